@@ -430,6 +430,8 @@ def next_op(rng: Rng, w: "World", case: dict, W: dict, total: int) -> list:
         return ["connect", i]
     if k == "hq":
         act = [j for j, h in enumerate(w.rec.handles) if h.is_active]
+        if not act and not wild and rng.chance(3, 4):
+            return ["connect", i]
         h = rng.choice(act) if act and not wild else rng.below(nh + 2)
         return ["hq", h, rng.choice(sqls)]
     if k == "rq":
@@ -446,10 +448,15 @@ def next_op(rng: Rng, w: "World", case: dict, W: dict, total: int) -> list:
         return ["rd", i, rng.choice(live) if live and not wild else (None if not nid else rng.below(nid + 1))]
     if k == "hd":
         act = [j for j, h in enumerate(w.rec.handles) if h.is_active]
+        if not act and not wild and rng.chance(3, 4):
+            return ["connect", i]
         return ["hd", rng.choice(act) if act and not wild else rng.below(nh + 2)]
     if k in ("nc", "nd", "ex", "un", "in", "run", "close"):
         return [k, i]
     if k == "nq":
+        dc = w.dc(i)
+        if dc is not None and dc.native_connection is None and rng.chance(3, 4):
+            return ["nc", i]
         return ["nq", i, rng.choice(sqls)]
     if k == "cpw":
         return ["cpw", i, pw_int(w.db.password) if rng.chance(2, 3) else rng.choice(pws)]
